@@ -462,5 +462,27 @@ def r14_14(ctx):
     delegate(ctx, c03.r03_10, lambda c: "replacing load" in c)
 
 
+def r14_15(ctx):
+    """R14.15 the client gets the protocol it asked for: every command-line option of kconfserver's main() is read, and `version`
+    reaches the run_server() call - the initial message is the state every later difference is applied to, and its form
+    (null values for invisible options in version 1, no `defaults` channel before version 3) depends on the version
+    (fixed defect 5.61: the option was parsed, range-checked and dropped)."""
+    repo = ctx.repo
+    f = repo.func(f"{KS}:main")
+    ctx.analysed(f.qual)
+    params = [a.arg for a in f.node.args.args]
+    body_names = {x.id for st in f.node.body for x in ast.walk(st) if isinstance(x, ast.Name) and isinstance(x.ctx, ast.Load)}
+    for p in params:
+        construct = f"kconfserver.main/option `{p}` is used"
+        (ctx.ok(construct, f.loc(), nontrivial=False) if p in body_names else ctx.bad(construct, "the option is accepted on the command line and ignored", f.loc()))
+    calls = [n for n in ast.walk(f.node) if isinstance(n, ast.Call) and ast.unparse(n.func) == "run_server"]
+    if not calls:
+        raise AnchorError("kconfserver main: run_server call not found")
+    construct = "kconfserver.main/the protocol version reaches run_server()"
+    ok = any(isinstance(x, ast.Name) and x.id == "version" for a in list(calls[0].args) + [k.value for k in calls[0].keywords] for x in ast.walk(a))
+    (ctx.ok(construct, f.loc(calls[0])) if ok else
+     ctx.bad(construct, "run_server() is started with its default version: a version 1 / 2 client receives an initial message in the newest format", f.loc(calls[0])))
+
+
 def rules():
-    return [("R14.14", r14_14, 1), ("R14.13", r14_13, 1), ("R14.12", r14_12, 3), ("R14.11", r14_11, 2), ("R14.10", r14_10, 1), ("R14.9", r14_9, 1), ("R14.1", r14_1, 9), ("R14.2", r14_2, 5), ("R14.3", r14_3, 3), ("R14.4", r14_4, 20), ("R14.5", r14_5, 10), ("R14.6", r14_6, 5), ("R14.7", r14_7, 1), ("R14.8", r14_8, 6)]
+    return [("R14.15", r14_15, 2), ("R14.14", r14_14, 1), ("R14.13", r14_13, 1), ("R14.12", r14_12, 3), ("R14.11", r14_11, 2), ("R14.10", r14_10, 1), ("R14.9", r14_9, 1), ("R14.1", r14_1, 9), ("R14.2", r14_2, 5), ("R14.3", r14_3, 3), ("R14.4", r14_4, 20), ("R14.5", r14_5, 10), ("R14.6", r14_6, 5), ("R14.7", r14_7, 1), ("R14.8", r14_8, 6)]
